@@ -5,16 +5,23 @@ VERIF = os.path.dirname(os.path.dirname(os.path.abspath(__file__)))
 
 def run_harnesses(names):
     out = []
-    kdir = os.path.join(VERIF, "kani")
-    if not os.path.isdir(kdir):
+    src = os.path.join(VERIF, "kani")
+    if not os.path.isdir(src):
         return [{"harness": n, "status": "UNAVAILABLE", "kind": "kani", "output": ""} for n in names]
     repo = os.environ.get("VERIF_REPO", "/repo")
+    kdir = src
+    if os.path.abspath(repo) != "/repo":
+        kdir = os.path.join(VERIF, "build", "kani_crate")
+        os.makedirs(os.path.join(kdir, "src"), exist_ok=True); os.makedirs(os.path.join(kdir, ".cargo"), exist_ok=True)
+        shutil.copyfile(os.path.join(src, "src", "lib.rs"), os.path.join(kdir, "src", "lib.rs"))
+        shutil.copyfile(os.path.join(src, ".cargo", "config.toml"), os.path.join(kdir, ".cargo", "config.toml"))
+        open(os.path.join(kdir, "Cargo.toml"), "w").write(open(os.path.join(src, "Cargo.toml")).read().replace('path = "/repo"', 'path = "%s"' % os.path.abspath(repo)))
     shutil.copyfile(os.path.join(repo, "Cargo.lock"), os.path.join(kdir, "Cargo.lock")) if os.path.exists(os.path.join(repo, "Cargo.lock")) else None
     env = dict(os.environ, CARGO_NET_OFFLINE="true")
     for spec in names:
         name, kind = (spec.split(":") + ["kani-complete"])[:2]
         t0 = time.time()
-        cmd = ["cargo", "kani", "-Z", "function-contracts", "-Z", "stubbing", "--harness", name]
+        cmd = ["cargo", "kani", "-Z", "function-contracts", "-Z", "stubbing", "-Z", "concrete-playback", "--concrete-playback=print", "--harness", name]
         try:
             r = subprocess.run(cmd, cwd=kdir, env=env, stdout=subprocess.PIPE, stderr=subprocess.STDOUT, text=True, timeout=3000)
             txt = r.stdout
@@ -24,5 +31,10 @@ def run_harnesses(names):
         except subprocess.TimeoutExpired as e:
             txt = (e.stdout or "") if isinstance(e.stdout, str) else ""
             st = "TIMEOUT"
-        out.append({"harness": name, "kind": kind, "status": st, "wall_s": round(time.time() - t0, 1), "output": txt[-6000:], "cmd": " ".join(cmd)})
+        cex = None
+        if st == "FAILED":
+            m = re.search(r"Concrete playback unit test.*?```(.*?)```", txt, re.S)
+            fails = re.findall(r"Failed Checks: (.*)", txt)
+            cex = {"failed_checks": fails[:5], "concrete_playback": (m.group(1).strip()[:2500] if m else None)}
+        out.append({"harness": name, "kind": kind, "status": st, "wall_s": round(time.time() - t0, 1), "output": txt[-6000:], "cmd": " ".join(cmd), "counterexample": cex})
     return out
